@@ -316,6 +316,62 @@ def _rebuild_prefix(ctx, f):
                 % text(iff.test), text_="swizzle prefix reuse")
 
 
+def _merge_alignment(ctx):
+    """_mergeRanksHelper pairs its own coordinates with a list of (already
+    merged) children positionally -- `zip(self.coords, children)`.  The
+    children list must have exactly one entry per stored payload, in order."""
+    f = ctx.method("Fiber", "_mergeRanksHelper")
+    zips = [c for c in f.own_nodes() if isinstance(c, ast.Call) and text(c.func) == "zip"
+            and len(c.args) == 2 and text(c.args[0]) == "%s.coords" % f.params[0]
+            and isinstance(c.args[1], ast.Name)]
+    ctx.require(zips, "C09.R4: positional pairing zip(self.coords, <children>) "
+                "of _mergeRanksHelper not found")
+    own = "%s.payloads" % f.params[0]
+    for z in zips:
+        b = z.args[1]
+        facts, _ = ctx.ty.facts_at(f, b.id, b)
+        problems = []
+        for fa in facts:
+            if fa.kind == "add":
+                continue        # the appends are examined with their loop
+            v = fa.value if fa.kind == "expr" else None
+            if v is not None and text(v) == own:
+                continue
+            if isinstance(v, ast.ListComp) and len(v.generators) == 1 and \
+                    not v.generators[0].ifs and text(v.generators[0].iter) == own:
+                continue
+            if isinstance(v, ast.List) and not v.elts:
+                # filled by a loop over the payloads
+                loops = [lp for lp in f.own_nodes() if isinstance(lp, ast.For)
+                         and text(lp.iter) == own and any(
+                             isinstance(c, ast.Call) and text(c.func) == b.id + ".append"
+                             for c in _walk(lp.body))]
+                apps = [c for lp in loops for c in _walk(lp.body)
+                        if isinstance(c, ast.Call) and text(c.func) == b.id + ".append"]
+                jumps = [j for lp in loops for j in _walk(lp.body)
+                         if isinstance(j, (ast.Continue, ast.Break))]
+                if len(loops) == 1 and len(apps) == 1 and not jumps and any(
+                        isinstance(st, ast.Expr) and st.value is apps[0]
+                        for st in loops[0].body):
+                    continue
+                problems.append("filled by a loop that does not append exactly "
+                                "once per stored payload (%d append(s), %d "
+                                "continue/break)" % (len(apps), len(jumps)))
+            else:
+                problems.append("defined as `%s`" % (text(v)[:50] if v is not None
+                                                     else fa.kind))
+        if problems:
+            ctx.bad("C09.R4", f, z, "_mergeRanksHelper pairs self.coords "
+                    "positionally with `%s`, which is %s: when an element is "
+                    "skipped every later child is paired with an earlier "
+                    "coordinate (points move, flatten and unflatten no longer "
+                    "cancel)" % (b.id, "; ".join(problems)),
+                    text_="merge children alignment")
+        else:
+            ctx.ok("C09.R4", f, z, "children list has one entry per stored "
+                   "payload, in order", text_="merge children alignment")
+
+
 def r4(ctx):
     f = ctx.method("Tensor", "swizzleRanks")
     whiles = [n for n in f.own_nodes() if isinstance(n, ast.While)]
@@ -377,6 +433,7 @@ def r4(ctx):
     if cp:
         ctx.ok("C09.R4", f, cp[0], "works on a deep copy")
     _rebuild_prefix(ctx, f)
+    _merge_alignment(ctx)
     # Fiber.swapRanks
     f = ctx.method("Fiber", "swapRanks")
     src = " ".join(text(s) for s in f.body).replace(" ", "")
